@@ -1176,7 +1176,11 @@ class BaseGateway:
             log(self._geterrortext(exc))
         log("finishing receiving thread")
         # wake up and terminate any execution waiting to receive
-        self._channelfactory._finished_receiving()
+        # (under the receive lock, so that a concurrent setcallback() either
+        # registers before and gets its endmarker here, or sees the closed
+        # channel afterwards and fires the endmarker itself)
+        with self._receivelock:
+            self._channelfactory._finished_receiving()
         log("terminating execution")
         self._terminate_execution()
         log("closing read")
